@@ -122,8 +122,30 @@ def main():
         out['sections'] = {str(i): sha(secs.get(i, b'')) for i in (1, 2, 3, 4)}
         out['listing'] = sha(co.listing)
         runs = []
+        import time as _time
+
+        class fake_clock:
+            """Run 1 sees a host clock that jumps 50 ms at every reading (run 0
+            the real one): execution must not depend on how fast the host is."""
+            names = ('monotonic', 'time', 'perf_counter')
+
+            def __enter__(self):
+                self.saved = {n: getattr(_time, n) for n in self.names}
+                t = [float(env.get('epoch') or 1000.0)]
+
+                def tick():
+                    t[0] += 0.05
+                    return t[0]
+                for n in self.names:
+                    setattr(_time, n, tick)
+
+            def __exit__(self, *a):
+                for n, f in self.saved.items():
+                    setattr(_time, n, f)
+
         for rep in range(4):
-            with contextlib.redirect_stdout(sink):
+            with contextlib.redirect_stdout(sink), \
+                    (fake_clock() if rep == 1 else contextlib.nullcontext()):
                 # runs 0,1: simulated peripherals; runs 2,3: the repository's
                 # real base peripherals (own Random(0) generator)
                 sim = Sim(ModInfo(co.bytes), job.get('script'), budget=40000,
